@@ -617,4 +617,483 @@ theorem flush_active {m m' : Mem} {pend : List PCmd} {sub : Option (List PCmd)}
     · cases h; exact initArrays_active _ _ _ _ _ h1
     · cases h; exact (initArrays_active _ _ _ _ _ h1 : m1.active = m.active)
 
+
+/-! ## how many registers an operation needs -/
+
+/-- number of free registers -/
+def free : List Bool → Nat
+  | [] => 0
+  | b :: bs => (if b then 0 else 1) + free bs
+
+theorem firstFree_of_free : ∀ (l : List Bool), 0 < free l → ∃ i, firstFree l = some i
+  | [], h => by simp [free] at h
+  | b :: bs, h => by
+    cases b with
+    | false => exact ⟨0, by simp [firstFree]⟩
+    | true =>
+      simp [free] at h
+      obtain ⟨i, hi⟩ := firstFree_of_free bs h
+      exact ⟨i + 1, by simp [firstFree, hi]⟩
+
+theorem free_set_true : ∀ (l : List Bool) (i : Nat), l.getD i true = false →
+    free (l.set i true) + 1 = free l
+  | [], i, h => by simp at h
+  | b :: bs, 0, h => by
+    simp at h; subst h; simp [free]; omega
+  | b :: bs, i + 1, h => by
+    have := free_set_true bs i (by simpa using h)
+    simp [free, List.set]; omega
+
+def Fut.depth : Fut → Nat
+  | .lit _ _ => 0
+  | .reg _ _ => 0
+  | .fut _ f => f.depth + 1
+
+/-- temporaries of a condition operand -/
+def Val.tmp : Val → Nat
+  | .fut _ => 1
+  | _ => 0
+
+/-- registers needed by the `other` operand of `add` -/
+def Val.addNeed : Val → Nat
+  | .fut g => g.depth + 1
+  | _ => 0
+
+def MTgt.need : MTgt → Nat
+  | .fut f => f.depth
+  | _ => 0
+
+/-- registers an operation needs on top of those that are active when it starts -/
+def need : Host → Nat
+  | .skip => 0
+  | .seq a b => max (need a) (need b)
+  | .newArray _ _ => 0
+  | .newReg _ => 1
+  | .qop _ t => t.need
+  | .addF f o _ => 1 + max f.depth o.addNeed
+  | .addR _ o _ => o.addNeed
+  | .ifc _ c a b body => max (need body) (if c.unary then a.tmp else a.tmp + b.tmp)
+  | .loop _ _ _ body => 1 + need body
+  | .loopBody _ _ _ body => 1 + need body
+  | .foreach _ _ body => 1 + need body
+  | .loopUntil _ body ef _ cl => 1 + max (need body) (max ef.tmp (need cl))
+  | .tryUntil _ body => need body
+
+/-- "does not fail for lack of a register" -/
+def NoReg {α : Type} (x : Except BuildError α) : Prop := ∀ e, x = .error e → e ≠ .noRegister
+
+theorem NoReg.ok {α : Type} (a : α) : NoReg (Except.ok a : Except BuildError α) := by
+  intro e h; cases h
+
+theorem NoReg.err {α : Type} {e : BuildError} (h : e ≠ .noRegister) :
+    NoReg (Except.error e : Except BuildError α) := by
+  intro e' h'; cases h'; exact h
+
+theorem getInactive_ok {m : Mem} (h : 0 < free m.active) : ∃ i, getInactive m = .ok i := by
+  obtain ⟨i, hi⟩ := firstFree_of_free _ h
+  exact ⟨i, by simp [getInactive, hi]⟩
+
+theorem activate_ok {m : Mem} {i : Nat} (h : m.active.getD i true = false) :
+    ∃ m', activate m i = .ok m' := by
+  unfold activate
+  rw [if_neg (by rw [h]; simp)]
+  exact ⟨_, rfl⟩
+
+theorem takeReg_ok {m : Mem} (h : 0 < free m.active) : ∃ m' i, takeReg m = .ok (m', i) := by
+  obtain ⟨i, hi⟩ := getInactive_ok h
+  obtain ⟨m', hm⟩ := activate_ok (getInactive_spec hi)
+  exact ⟨m', i, by simp [takeReg, hi, hm]⟩
+
+theorem release_noReg (m : Mem) (i : Nat) : NoReg (release m i) := by
+  intro e h; unfold release at h; split at h <;> cases h; simp
+
+theorem releaseOpt_noReg (m : Mem) (t : Option Nat) : NoReg (releaseOpt m t) := by
+  cases t with
+  | none => exact NoReg.ok _
+  | some t => exact release_noReg m t
+
+theorem activate_noReg (m : Mem) (i : Nat) : NoReg (activate m i) := by
+  intro e h; unfold activate at h; split at h <;> cases h; simp
+
+theorem handle_noReg (m : Mem) (h : Nat) : NoReg (handle m h) := by
+  intro e he; unfold handle at he; split at he <;> cases he; simp
+
+theorem free_after_take {m m1 : Mem} {i : Nat} (h : takeReg m = .ok (m1, i)) :
+    free m1.active + 1 = free m.active := by
+  have := takeReg_spec h
+  rw [this.2.1]; exact free_set_true _ _ this.1
+
+theorem free_after_activate {m m1 : Mem} {i : Nat} (h : activate m i = .ok m1) :
+    free m1.active + 1 = free m.active := by
+  have := activate_spec h
+  rw [this.2.1]; exact free_set_true _ _ this.1
+
+theorem accessCmds_noReg : ∀ (f : Fut) (m : Mem) (st : Bool) (r : Reg),
+    f.depth ≤ free m.active → NoReg (accessCmds m st r f)
+  | .lit a i, m, st, r, _ => by simp only [accessCmds]; exact NoReg.ok _
+  | .reg a hh, m, st, r, _ => by
+    simp only [accessCmds]
+    split
+    · rename_i e he; exact NoReg.err (handle_noReg _ _ _ he)
+    · exact NoReg.ok _
+  | .fut a f, m, st, r, hf => by
+    simp only [accessCmds]
+    have hpos : 0 < free m.active := by simp [Fut.depth] at hf; omega
+    obtain ⟨t, ht⟩ := getInactive_ok hpos
+    rw [ht]; simp only
+    obtain ⟨m1, h1⟩ := activate_ok (getInactive_spec ht)
+    rw [h1]; simp only
+    have f1 := free_after_activate h1
+    have ih := accessCmds_noReg f m1 false (R t) (by simp [Fut.depth] at hf; omega)
+    split
+    · rename_i e he; exact NoReg.err (ih _ he)
+    · split
+      · rename_i e he; exact NoReg.err (release_noReg _ _ _ he)
+      · exact NoReg.ok _
+
+theorem addressEntry_noReg (m : Mem) (f : Fut) : NoReg (addressEntry m f) := by
+  cases f with
+  | lit a i => simp only [addressEntry]; exact NoReg.ok _
+  | reg a hh =>
+    simp only [addressEntry]
+    split
+    · rename_i e he; exact NoReg.err (handle_noReg _ _ _ he)
+    · exact NoReg.ok _
+  | fut a f => simp only [addressEntry]; exact NoReg.err (by simp)
+
+theorem condOperand_noReg (m : Mem) (v : Val) (h : v.tmp ≤ free m.active) : NoReg (condOperand m v) := by
+  cases v with
+  | lit x => simp only [condOperand]; exact NoReg.ok _
+  | reg hh =>
+    simp only [condOperand]
+    split
+    · rename_i e he; exact NoReg.err (handle_noReg _ _ _ he)
+    · split
+      · exact NoReg.ok _
+      · exact NoReg.err (by simp)
+  | fut f =>
+    simp only [condOperand]
+    obtain ⟨m1, t, h1⟩ := takeReg_ok (m := m) (by simp [Val.tmp] at h; omega)
+    rw [h1]; simp only
+    split
+    · rename_i e he; exact NoReg.err (addressEntry_noReg _ _ _ he)
+    · exact NoReg.ok _
+
+def optCount : Option Nat → Nat
+  | none => 0
+  | some _ => 1
+
+/-- free registers after a helper handed a temporary to its caller -/
+theorem free_took {m m1 : Mem} {t : Option Nat} (h : Took m m1 t) :
+    free m1.active + optCount t = free m.active := by
+  cases t with
+  | none => simp [Took] at h; simp [h, optCount]
+  | some t => obtain ⟨h1, h2⟩ := h; rw [h2]; exact free_set_true _ _ h1
+
+theorem condOperand_tmp {m m1 : Mem} {v : Val} {cs : List PCmd} {o : POp} {t : Option Nat}
+    (h : condOperand m v = .ok (m1, cs, o, t)) : free m1.active + v.tmp = free m.active := by
+  have tk := free_took (condOperand_took h)
+  cases v with
+  | lit x => simp [condOperand] at h; obtain ⟨_, _, _, rfl⟩ := h; simpa [Val.tmp, optCount] using tk
+  | reg hh =>
+    simp only [condOperand] at h
+    split at h
+    · cases h
+    · split at h
+      · cases h; simpa [Val.tmp, optCount] using tk
+      · cases h
+  | fut f =>
+    simp only [condOperand] at h
+    split at h
+    · cases h
+    · split at h
+      · cases h
+      · cases h; simpa [Val.tmp, optCount] using tk
+
+theorem branchCmds_noReg (m : Mem) (c : Cond) (a b : Val)
+    (h : (if c.unary then a.tmp else a.tmp + b.tmp) ≤ free m.active) : NoReg (branchCmds m c a b) := by
+  unfold branchCmds
+  simp only
+  split
+  · rename_i hu
+    rw [if_pos hu] at h
+    split
+    · rename_i e he
+      exact NoReg.err (condOperand_noReg _ _ (by exact h) _ he)
+    · split
+      · rename_i e he; exact NoReg.err (releaseOpt_noReg _ _ _ he)
+      · exact NoReg.ok _
+  · rename_i hu
+    rw [if_neg hu] at h
+    split
+    · rename_i e he
+      exact NoReg.err (condOperand_noReg _ _ (by show a.tmp ≤ free m.active; omega) _ he)
+    · rename_i m1 ca oa ta h1
+      have f1 := condOperand_tmp h1
+      have f1' : free m1.active + a.tmp = free m.active := f1
+      split
+      · rename_i e he
+        exact NoReg.err (condOperand_noReg _ _ (by omega) _ he)
+      · split
+        · rename_i e he; exact NoReg.err (releaseOpt_noReg _ _ _ he)
+        · split
+          · rename_i e he; exact NoReg.err (releaseOpt_noReg _ _ _ he)
+          · exact NoReg.ok _
+
+theorem buildCondition_noReg (m : Mem) (c : Cond) (a b : Val) (body : List PCmd)
+    (h : (if c.unary then a.tmp else a.tmp + b.tmp) ≤ free m.active) :
+    NoReg (buildCondition m c a b body) := by
+  unfold buildCondition
+  split
+  · exact NoReg.ok _
+  · split
+    · rename_i e he; exact NoReg.err (branchCmds_noReg _ _ _ _ h _ he)
+    · exact NoReg.ok _
+
+theorem breakCmds_noReg (m : Mem) (ef : Val) (ev : Int) (lx : Lbl) (h : ef.tmp ≤ free m.active) :
+    NoReg (breakCmds m ef ev lx) := by
+  unfold breakCmds
+  split
+  · rename_i e he; exact NoReg.err (condOperand_noReg _ _ h _ he)
+  · split
+    · rename_i e he; exact NoReg.err (releaseOpt_noReg _ _ _ he)
+    · exact NoReg.ok _
+
+theorem addOther_noReg (m : Mem) (v : Val) (h : v.addNeed ≤ free m.active) : NoReg (addOther m v) := by
+  cases v with
+  | lit x => simp only [addOther]; exact NoReg.ok _
+  | reg hh =>
+    simp only [addOther]
+    split
+    · rename_i e he; exact NoReg.err (handle_noReg _ _ _ he)
+    · split
+      · exact NoReg.err (by simp)
+      · exact NoReg.ok _
+  | fut g =>
+    simp only [addOther]
+    simp only [Val.addNeed] at h
+    obtain ⟨m1, t, h1⟩ := takeReg_ok (m := m) (by omega)
+    rw [h1]; simp only
+    have f1 := free_after_take h1
+    split
+    · rename_i e he; exact NoReg.err (accessCmds_noReg _ _ _ _ (by omega) _ he)
+    · exact NoReg.ok _
+
+theorem emitAddF_noReg (m : Mem) (f : Fut) (o : Val) (md : Option Int)
+    (h : 1 + max f.depth o.addNeed ≤ free m.active) : NoReg (emitAddF m f o md) := by
+  unfold emitAddF
+  obtain ⟨m1, t, h1⟩ := takeReg_ok (m := m) (by omega)
+  rw [h1]; simp only
+  have f1 := free_after_take h1
+  split
+  · rename_i e he; exact NoReg.err (accessCmds_noReg _ _ _ _ (by omega) _ he)
+  · rename_i m2 ld h2
+    have a2 := accessCmds_active _ _ _ _ _ _ h2
+    split
+    · rename_i e he; exact NoReg.err (accessCmds_noReg _ _ _ _ (by rw [a2]; omega) _ he)
+    · rename_i m3 st h3
+      have a3 := accessCmds_active _ _ _ _ _ _ h3
+      split
+      · rename_i e he; exact NoReg.err (addOther_noReg _ _ (by rw [a3, a2]; omega) _ he)
+      · split
+        · rename_i e he; exact NoReg.err (release_noReg _ _ _ he)
+        · split
+          · rename_i e he; exact NoReg.err (releaseOpt_noReg _ _ _ he)
+          · exact NoReg.ok _
+
+theorem emitAddR_noReg (m : Mem) (hh : Nat) (o : Val) (md : Option Int)
+    (h : o.addNeed ≤ free m.active) : NoReg (emitAddR m hh o md) := by
+  unfold emitAddR
+  split
+  · rename_i e he; exact NoReg.err (handle_noReg _ _ _ he)
+  · split
+    · exact NoReg.err (by simp)
+    · split
+      · rename_i e he; exact NoReg.err (addOther_noReg _ _ h _ he)
+      · split
+        · rename_i e he; exact NoReg.err (releaseOpt_noReg _ _ _ he)
+        · exact NoReg.ok _
+
+theorem firstUnusedMeas_noReg (m : Mem) : NoReg (firstUnusedMeas m) := by
+  unfold firstUnusedMeas
+  split
+  · exact NoReg.ok _
+  · exact NoReg.err (by simp)
+
+theorem emitQop_noReg (m : Mem) (g : List Nat) (tgt : MTgt) (h : tgt.need ≤ free m.active) :
+    NoReg (emitQop m g tgt) := by
+  unfold emitQop
+  cases tgt with
+  | newFut =>
+    simp only
+    split
+    · rename_i e he; exact NoReg.err (firstUnusedMeas_noReg _ _ he)
+    · rename_i m1 k h1
+      have a1 := firstUnusedMeas_active h1
+      split
+      · rename_i e he
+        exact NoReg.err (accessCmds_noReg _ _ _ _ (by simp [Fut.depth]) _ he)
+      · exact NoReg.ok _
+  | fut f =>
+    simp only
+    split
+    · rename_i e he; exact NoReg.err (firstUnusedMeas_noReg _ _ he)
+    · rename_i m1 k h1
+      have a1 := firstUnusedMeas_active h1
+      split
+      · rename_i e he
+        exact NoReg.err (accessCmds_noReg _ _ _ _ (by rw [a1]; simpa [MTgt.need] using h) _ he)
+      · exact NoReg.ok _
+  | newReg =>
+    simp only
+    split
+    · rename_i e he; exact NoReg.err (firstUnusedMeas_noReg _ _ he)
+    · exact NoReg.ok _
+
+
+theorem arrLen_noReg (m : Mem) (a : Nat) : NoReg (arrLen m a) := by
+  intro e he; unfold arrLen at he; split at he <;> cases he; simp
+
+/-- shared shape of `loop`, `loopBody`, `foreach` -/
+theorem loopShape_noReg {m : Mem} {body : Host} {s e d : Int} {b : Bool}
+    (ih : ∀ m, need body ≤ free m.active → NoReg (emit m body))
+    (h : 1 + need body ≤ free m.active) :
+    NoReg (match takeReg m with
+      | .error e => (.error e : Except BuildError (Mem × List PCmd))
+      | .ok (m1, i) =>
+        match emit (bindHandle m1 (R i) b) body with
+        | .error e => .error e
+        | .ok (m2, cs) =>
+          let (m3, out) := buildLoop m2 s e d (R i) cs
+          match release m3 i with
+          | .error e => .error e
+          | .ok m4 => .ok (m4, out)) := by
+  obtain ⟨m1, i, h1⟩ := takeReg_ok (m := m) (by omega)
+  rw [h1]; simp only
+  have f1 := free_after_take h1
+  split
+  · rename_i e he
+    exact NoReg.err (ih _ (by rw [bindHandle_active]; omega) _ he)
+  · split
+    · rename_i e he; exact NoReg.err (release_noReg _ _ _ he)
+    · exact NoReg.ok _
+
+theorem emit_noReg : ∀ (op : Host) (m : Mem), Completed op → need op ≤ free m.active →
+    NoReg (emit m op) := by
+  intro op
+  induction op with
+  | skip => intro m _ _; simp only [emit]; exact NoReg.ok _
+  | seq a b iha ihb =>
+    intro m hc h
+    simp only [need] at h
+    simp only [emit]
+    split
+    · rename_i e he; exact NoReg.err (iha _ hc.1 (by omega) _ he)
+    · rename_i m1 ca h1
+      have a1 := emit_active _ _ _ _ hc.1 h1
+      split
+      · rename_i e he; exact NoReg.err (ihb _ hc.2 (by rw [a1]; omega) _ he)
+      · exact NoReg.ok _
+  | newArray len init =>
+    intro m _ _
+    simp only [emit]
+    split <;> (split; exact NoReg.err (by simp); exact NoReg.ok _)
+  | newReg v => intro m hc; exact hc.elim
+  | qop g t => intro m _ h; simp only [emit]; exact emitQop_noReg _ _ _ h
+  | addF f o md => intro m _ h; simp only [emit]; exact emitAddF_noReg _ _ _ _ h
+  | addR hh o md => intro m _ h; simp only [emit]; exact emitAddR_noReg _ _ _ _ h
+  | ifc cb c a b body ih =>
+    intro m hc h
+    simp only [need] at h
+    simp only [emit]
+    split
+    · rename_i e he; exact NoReg.err (ih _ hc (by omega) _ he)
+    · rename_i m1 cs h1
+      have a1 := emit_active body _ _ _ hc h1
+      exact buildCondition_noReg _ _ _ _ _ (by rw [a1]; omega)
+  | loop s e d body ih =>
+    intro m hc h
+    simp only [emit]
+    exact loopShape_noReg (fun m hm => ih m hc hm) h
+  | loopBody s e d body ih =>
+    intro m hc h
+    simp only [emit]
+    exact loopShape_noReg (fun m hm => ih m hc hm) h
+  | foreach arr wi body ih =>
+    intro m hc h
+    simp only [emit]
+    split
+    · rename_i e he; exact NoReg.err (arrLen_noReg _ _ _ he)
+    · exact loopShape_noReg (fun m hm => ih m hc hm) h
+  | loopUntil n body ef ev cl ihb ihc =>
+    intro m hc h
+    simp only [need] at h
+    simp only [emit]
+    obtain ⟨m1, i, h1⟩ := takeReg_ok (m := m) (by omega)
+    rw [h1]; simp only
+    have f1 := free_after_take h1
+    split
+    · rename_i e he
+      exact NoReg.err (ihb _ hc.1 (by rw [bindHandle_active]; omega) _ he)
+    · rename_i m2 cs h2
+      have a2 := emit_active _ _ _ _ hc.1 h2
+      rw [bindHandle_active] at a2
+      split
+      · split
+        · rename_i e he; exact NoReg.err (release_noReg _ _ _ he)
+        · exact NoReg.ok _
+      · split
+        · rename_i e he
+          refine NoReg.err (breakCmds_noReg _ _ _ _ ?_ _ he)
+          show ef.tmp ≤ free m2.active
+          rw [a2]; omega
+        · rename_i m5 brk h5
+          have a5 := breakCmds_active h5
+          have a5' : m5.active = m2.active := a5
+          split
+          · rename_i e he
+            exact NoReg.err (ihc _ hc.2 (by rw [a5', a2]; omega) _ he)
+          · split
+            · rename_i e he; exact NoReg.err (release_noReg _ _ _ he)
+            · exact NoReg.ok _
+  | tryUntil n body ih =>
+    intro m hc h
+    simp only [emit]
+    exact ih _ hc h
+
+/-! ### flush needs one register (the array-initialisation loop) -/
+
+theorem initArray_noReg (m : Mem) (pend : List PCmd) (d : ArrDecl) (h : 0 < free m.active) :
+    NoReg (initArray m pend d) := by
+  unfold initArray
+  simp only
+  split
+  · exact NoReg.ok _
+  · split
+    · obtain ⟨i, hi⟩ := getInactive_ok h
+      rw [hi]; simp only
+      split
+      · rename_i e he; exact NoReg.err (activate_noReg _ _ _ he)
+      · split
+        · rename_i e he; exact NoReg.err (release_noReg _ _ _ he)
+        · exact NoReg.ok _
+    · exact NoReg.ok _
+
+theorem initArrays_noReg : ∀ (ds : List ArrDecl) (m : Mem) (pend : List PCmd), 0 < free m.active →
+    NoReg (initArrays m pend ds)
+  | [], m, pend, _ => by simp only [initArrays]; exact NoReg.ok _
+  | d :: ds, m, pend, h => by
+    simp only [initArrays]
+    split
+    · rename_i e he; exact NoReg.err (initArray_noReg _ _ _ h _ he)
+    · rename_i m1 p1 h1
+      exact initArrays_noReg ds m1 p1 (by rw [initArray_active h1]; exact h)
+
+theorem flush_noReg (m : Mem) (pend : List PCmd) (h : 0 < free m.active) : NoReg (flush m pend) := by
+  unfold flush
+  split
+  · rename_i e he; exact NoReg.err (initArrays_noReg _ _ _ h _ he)
+  · simp only
+    split <;> exact NoReg.ok _
+
 end NQ.Sdk
